@@ -29,6 +29,11 @@ pub enum Action {
     CallAfterTrade { vault: String, old_balance: Uint128, loan_amount: Uint128 },
     /// take another loan; `program` is what the borrower does in that loan's callback
     Loan { vault: String, amount: Uint128, program: Vec<Action> },
+    /// execute an arbitrary message with the borrower as sender (the borrower may be the operator
+    /// of the vault factory in some runs)
+    Exec { contract: String, msg: Binary },
+    /// take a loan on a vault and attach coins of some (other) denom to the FlashLoan message itself
+    LoanWithCoins { vault: String, amount: Uint128, denom: String, coins: Uint128, program: Vec<Action> },
     /// take a loan through the vault router; payload = messages the router runs
     RouterLoan { router: String, asset: AssetInfo, amount: Uint128, payload: Vec<Action> },
 }
@@ -114,6 +119,16 @@ pub fn action_msgs(self_addr: &str, a: &Action) -> StdResult<Vec<CosmosMsg>> {
                 msg: to_json_binary(&ExecuteMsg::Run { program: program.clone() })?,
             })?,
             funds: vec![],
+        }
+        .into()],
+        Action::Exec { contract, msg } => vec![WasmMsg::Execute { contract_addr: contract.clone(), msg: msg.clone(), funds: vec![] }.into()],
+        Action::LoanWithCoins { vault, amount, denom, coins: attached, program } => vec![WasmMsg::Execute {
+            contract_addr: vault.clone(),
+            msg: to_json_binary(&vault::ExecuteMsg::FlashLoan {
+                amount: *amount,
+                msg: to_json_binary(&ExecuteMsg::Run { program: program.clone() })?,
+            })?,
+            funds: coins(attached.u128(), denom),
         }
         .into()],
         Action::RouterLoan { router, asset, amount, payload } => {
